@@ -223,6 +223,9 @@ class H2Server:
         self.big_once_done = False
         self.closed = False
         self.protocol_error = None
+        self.out_frames = 0
+        self.mut_done = False
+        self.mut_close = False
 
     # -------------------------------------------------------------------------
     def goaway_consumed(self) -> bool:
@@ -231,7 +234,65 @@ class H2Server:
     def _flush(self, delay: float = 0.0) -> None:
         data = self.conn.data_to_send()
         if data:
+            mut = self.script.get("mutate")
+            if mut is not None:
+                data = self._mutate(data, mut)
             self.tr.send(data, delay)
+            if self.mut_close:
+                self.tr.server_close(0.5)
+                self.closed = True
+
+    def _mutate(self, data: bytes, mut: dict) -> bytes:
+        """Frame-level mutation of the outgoing byte stream (C15). mut: {'frame': i, 'kind': ..., 'seed': n}"""
+        import random as _random
+        out = bytearray()
+        pos = 0
+        while pos + 9 <= len(data):
+            length = int.from_bytes(data[pos:pos + 3], "big")
+            frame = bytearray(data[pos:pos + 9 + length])
+            pos += 9 + length
+            idx = self.out_frames
+            self.out_frames += 1
+            if idx == mut["frame"] and not self.mut_done:
+                self.mut_done = True
+                self.mut_close = True  # the peer ends its input 0.5 s after the flush that carried the mutation
+                r = _random.Random(mut.get("seed", 0))
+                kind = mut["kind"]
+                if kind == "type":
+                    frame[3] = r.choice([0, 1, 2, 3, 4, 5, 6, 7, 8, 9, 10, 12, 255])
+                elif kind == "flags":
+                    frame[4] = r.randrange(256)
+                elif kind == "stream":
+                    sid = r.choice([0, 1, 2, 3, 5, 7, 99, 2 ** 31 - 1])
+                    frame[5:9] = sid.to_bytes(4, "big")
+                elif kind == "length":
+                    newlen = max(0, length + r.choice([-3, -1, 1, 5, 100, 2 ** 20]))
+                    frame[0:3] = min(newlen, 2 ** 24 - 1).to_bytes(3, "big")
+                elif kind == "payload":
+                    for i in range(9, len(frame)):
+                        frame[i] = r.randrange(256)
+                elif kind == "bitflip":
+                    for _ in range(r.randint(1, 4)):
+                        if len(frame) > 0:
+                            i = r.randrange(len(frame))
+                            frame[i] ^= 1 << r.randrange(8)
+                elif kind == "truncate":
+                    out += frame[:r.randrange(len(frame))]
+                    self.mut_close = True
+                    return bytes(out)
+                elif kind == "drop":
+                    frame = bytearray()
+                elif kind == "dup":
+                    frame = frame + frame
+                elif kind == "inject":
+                    frame = bytearray(mut_inject(r, mut.get("what"), self)) + frame
+                elif kind == "inject-after":
+                    frame = frame + bytearray(mut_inject(r, mut.get("what"), self))
+                elif kind == "garbage":
+                    frame = bytearray(r.randrange(256) for _ in range(r.randint(1, 64)))
+            out += frame
+        out += data[pos:]
+        return bytes(out)
 
     def _start(self) -> None:
         self.started = True
@@ -558,3 +619,90 @@ class H2Server:
                     if interleave:
                         break
                 self._flush()
+
+
+INJECT_KINDS = ["wu-zero", "wu-overflow", "wu-stream-overflow", "settings-push-2", "settings-iws-overflow", "settings-mfs-small",
+                "settings-odd-length", "settings-ack-with-payload", "push-promise", "continuation-alone", "priority-self",
+                "priority-short", "goaway", "rst-idle", "rst-stream0", "data-stream0", "data-idle", "headers-bad-status",
+                "headers-empty-status", "headers-no-status", "headers-upper", "headers-hpack-garbage", "headers-even-stream",
+                "ping-short", "ping-stream1", "unknown-type", "huge-length", "headers-twice", "data-after-end", "trailers-pseudo",
+                "content-length-mismatch", "headers-connection-specific"]
+
+
+def mut_inject(r, what, srv) -> bytes:
+    """Hand-built frames that a conforming server would never send."""
+    import struct
+    from hpack import Encoder
+
+    def fr(ftype, flags, sid, payload):
+        return len(payload).to_bytes(3, "big") + bytes([ftype, flags]) + sid.to_bytes(4, "big") + payload
+
+    sids = sorted(srv.reqs) or [1]
+    sid = r.choice(sids)
+    what = what or r.choice(INJECT_KINDS)
+    enc = Encoder()
+    if what == "wu-zero":
+        return fr(8, 0, r.choice([0, sid]), struct.pack(">I", 0))
+    if what == "wu-overflow":
+        return fr(8, 0, 0, struct.pack(">I", 2 ** 31 - 1))
+    if what == "wu-stream-overflow":
+        return fr(8, 0, sid, struct.pack(">I", 2 ** 31 - 1))
+    if what == "settings-push-2":
+        return fr(4, 0, 0, struct.pack(">HI", 2, 2))
+    if what == "settings-iws-overflow":
+        return fr(4, 0, 0, struct.pack(">HI", 4, 2 ** 31))
+    if what == "settings-mfs-small":
+        return fr(4, 0, 0, struct.pack(">HI", 5, 1))
+    if what == "settings-odd-length":
+        return fr(4, 0, 0, b"\x00\x03\x00")
+    if what == "settings-ack-with-payload":
+        return fr(4, 1, 0, struct.pack(">HI", 3, 10))
+    if what == "push-promise":
+        return fr(5, 4, sid, struct.pack(">I", 2) + enc.encode([(b":method", b"GET"), (b":path", b"/"), (b":scheme", b"https"), (b":authority", b"x")]))
+    if what == "continuation-alone":
+        return fr(9, 4, sid, b"\x88")
+    if what == "priority-self":
+        return fr(2, 0, sid, struct.pack(">IB", sid, 10))
+    if what == "priority-short":
+        return fr(2, 0, sid, b"\x00\x00")
+    if what == "goaway":
+        return fr(7, 0, 0, struct.pack(">II", r.choice([0, sid, 2 ** 31 - 1]), r.choice([0, 1, 11, 999])) + b"dbg")
+    if what == "rst-idle":
+        return fr(3, 0, 99, struct.pack(">I", 8))
+    if what == "rst-stream0":
+        return fr(3, 0, 0, struct.pack(">I", 8))
+    if what == "data-stream0":
+        return fr(0, 0, 0, b"xx")
+    if what == "data-idle":
+        return fr(0, 0, 77, b"xx")
+    if what == "headers-bad-status":
+        return fr(1, 4, sid, enc.encode([(b":status", r.choice([b"abc", b"2x0", b"20", b"99999", b"-1", b"2 00", b"\xff\xfe"]))]))
+    if what == "headers-empty-status":
+        return fr(1, 4, sid, enc.encode([(b":status", b"")]))
+    if what == "headers-no-status":
+        return fr(1, 4, sid, enc.encode([(b"x-a", b"b")]))
+    if what == "headers-upper":
+        return fr(1, 4, sid, enc.encode([(b":status", b"200"), (b"X-Upper", b"b")]))
+    if what == "headers-hpack-garbage":
+        return fr(1, 4, sid, bytes(r.randrange(256) for _ in range(r.randint(1, 30))))
+    if what == "headers-even-stream":
+        return fr(1, 4, 2, enc.encode([(b":status", b"200")]))
+    if what == "ping-short":
+        return fr(6, 0, 0, b"abc")
+    if what == "ping-stream1":
+        return fr(6, 0, 1, b"12345678")
+    if what == "unknown-type":
+        return fr(r.choice([10, 11, 99, 255]), r.randrange(256), r.choice([0, sid]), b"whatever")
+    if what == "huge-length":
+        return (2 ** 24 - 1).to_bytes(3, "big") + bytes([0, 0]) + sid.to_bytes(4, "big") + b"x" * 100
+    if what == "headers-twice":
+        return fr(1, 4, sid, enc.encode([(b":status", b"200")])) + fr(1, 4, sid, enc.encode([(b":status", b"200")]))
+    if what == "data-after-end":
+        return fr(0, 1, sid, b"end") + fr(0, 0, sid, b"more")
+    if what == "trailers-pseudo":
+        return fr(1, 5, sid, enc.encode([(b":status", b"200"), (b":path", b"/x")]))
+    if what == "content-length-mismatch":
+        return fr(1, 4, sid, enc.encode([(b":status", b"200"), (b"content-length", b"5")])) + fr(0, 1, sid, b"toolongbody")
+    if what == "headers-connection-specific":
+        return fr(1, 4, sid, enc.encode([(b":status", b"200"), (b"connection", b"close"), (b"transfer-encoding", b"chunked")]))
+    return b""
